@@ -1,18 +1,25 @@
 """C10 A failed connection fails every pending request exactly once.
 
-Engine E (explore.bfs): bounded request histories on a real Connection (plain send_msg requests,
-a heartbeat, a continuous-paging session, a blocking wait_for_response) with a fault injected at
-every event point and every continuation after the fault (late frames for the failed streams,
-further sends, a second fault, the "error the rest from another thread" task).
+Layer E (explore.bfs): bounded request histories on a real Connection (plain send_msg requests whose
+handler returns or raises, a heartbeat, a continuous-paging session, a blocking wait_for_response) with a
+fault injected at every event point and every continuation after the fault (late frames for the failed
+streams, further sends, a second fault, the "error the rest from another thread" task).
+
+Layer S (vt/c10sched.py): the failure runs on a reactor thread (optionally a second thread closes the
+connection at the same time) while client threads take a stream id and call send_msg; every schedule with
+at most one preemption, scheduling points at every source line of defunct / close / error_all_requests /
+send_msg / process_msg.
 """
 from vt.core import Part, HarnessError
 from vt import explore, connlib
 
 META = {
     'level': 'model_checking',
-    'engine': 'E',
-    'technique': 'explicit-state BFS over request/response/fault histories on the real Connection, canonical-state dedup',
-    'text': 'Programs of up to 4 requests on a handshaken connection (send_msg with callbacks as the pools do; HeartbeatFuture; '
+    'engine': 'E+S',
+    'technique': 'explicit-state BFS over request/response/fault histories on the real Connection, canonical-state dedup, '
+                 'plus stateless preemption-bounded schedule exploration of the failure (reactor thread) against concurrent send_msg calls (client threads)',
+    'text': 'Programs of up to 4 requests on a handshaken connection (send_msg with callbacks as the pools do, the callback either '
+            'returning or raising whatever it is handed (plainx: a user errback / retry hook that blows up); HeartbeatFuture; '
             'a continuous-paging session created by the first page as ResponseFuture does; one blocking wait_for_response whose '
             'reply or fault arrives while it waits).  Events: next send, response per outstanding stream, next / last page, and at '
             'every point each fault {defunct(OSError), close(), undecodable frame on a stream, ERROR ProtocolError frame on a stream}; '
@@ -20,8 +27,22 @@ META = {
             'second defunct/close, run of the error-callbacks thread (CALLBACK_ERR_THREAD_THRESHOLD=2 variant)}.  Invariants in every '
             'state: no handler invoked twice; nothing delivered to a handler after the fault; once the connection is down and no '
             'callback thread is pending every request outstanding at the fault has been invoked exactly once with a connection '
-            'error (the continuous-paging session: exactly one error and no page after it); send_msg raises ConnectionShutdown.',
-    'note': 'Single-threaded interleavings only (engine S covers preemption inside handlers elsewhere).  VConnection.close() is the '
+            'error (the continuous-paging session: exactly one error and no page after it) whether or not other handlers raised; '
+            'send_msg raises ConnectionShutdown.  '
+            'Schedule layer: 2-3 requests outstanding (handlers returning / raising), then a reactor thread applies the fault '
+            '{defunct(OSError), close(), undecodable frame, ERROR ProtocolError frame; defunct with a second thread calling close()} '
+            'while 1-2 client threads borrow a stream id under the lock and call send_msg (as HostConnection.borrow_connection + '
+            'ResponseFuture._query do); inline and CALLBACK_ERR_THREAD_THRESHOLD=2 (the error-callbacks thread is a scheduled thread); '
+            'all schedules with <= 1 preemption (thorough: <= 2, 3 for the smallest), scheduling points at every virtual lock / event / '
+            'thread start and every source line of Connection.defunct, error_all_requests (and its nested functions), '
+            'error_all_cp_sessions, send_msg, process_msg and the reactor close().  Oracle per execution: a send that starts when '
+            'is_defunct or is_closed is already set is refused with ConnectionShutdown; every request whose send_msg returned '
+            'normally, before or during the failure, has its callback invoked exactly once with a connection error; the callback '
+            'of a refused send is never invoked; no handler stays registered; no deadlock.',
+    'note': 'Layer E: single-threaded interleavings.  Layer S: preemption granularity is the source line in the named functions and the '
+            'virtual primitive elsewhere; "started after the mark" is read by the client thread immediately before the call (no '
+            'scheduling point in between).  An undecodable frame on the stream of a handler that raises is left out (process_msg hands '
+            'the decode error to the handler before defunct(); where the handler\'s exception goes is reactor-specific).  VConnection.close() is the '
             'contract common to the shipped reactors.  The continuous-paging glue (create the session on the first page) copies '
             'ResponseFuture._handle_continuous_paging_first_response.  The stream whose own frame is undecodable / a ProtocolError '
             'may receive that error object instead of ConnectionShutdown.',
@@ -55,6 +76,13 @@ class Req(object):
 
 
 class St(object):
+    pass
+
+
+SIMPLE = ('plain', 'plainx', 'hb')       # plainx: a plain request whose handler raises whatever it is handed
+
+
+class HandlerRaises(RuntimeError):
     pass
 
 
@@ -189,7 +217,8 @@ class H(explore.Harness):
             evs.append((('close',), 0))
             for r in st.reqs:
                 if self.outstanding(r) and r.kind != 'wait':
-                    evs.append((('garbage', r.idx), 0))
+                    if r.kind != 'plainx':       # see META note / ctx.assume
+                        evs.append((('garbage', r.idx), 0))
                     evs.append((('proto', r.idx), 0))
         else:
             if st.w.thread_tasks:
@@ -232,6 +261,11 @@ class H(explore.Harness):
             if r.kind == 'plain':
                 conn.send_msg(QueryMessage('SELECT * FROM t', 1), r.stream,
                               lambda resp: r.calls.append((self.phase(st), classify(resp))))
+            elif r.kind == 'plainx':
+                def raising(resp):
+                    r.calls.append((self.phase(st), classify(resp)))
+                    raise HandlerRaises('handler of request %d raises' % r.idx)
+                conn.send_msg(QueryMessage('SELECT * FROM t', 1), r.stream, raising)
             else:
                 def first(resp):
                     r.calls.append((self.phase(st), classify(resp)))
@@ -379,9 +413,9 @@ class H(explore.Harness):
             if r.kind != 'wait' and st.down and r.at_fault is False and down:
                 viol('delivery-after-failure/%s/after-%s' % (r.kind, st.fault),
                      'request %d (%s) was not outstanding at the fault but its handler ran afterwards: %r' % (r.idx, r.kind, r.calls))
-            if r.kind in ('plain', 'hb') and r.at_fault and any(c[1].startswith('resp:') for c in down):
+            if r.kind in SIMPLE and r.at_fault and any(c[1].startswith('resp:') for c in down):
                 viol('response-after-failure/%s/after-%s' % (r.kind, st.fault), 'request %d got a response after the connection failed: %r' % (r.idx, r.calls))
-            if r.kind in ('plain', 'hb') and settled and r.at_fault:
+            if r.kind in SIMPLE and settled and r.at_fault:
                 if n == 0:
                     viol('never-failed/%s/after-%s/%s' % (r.kind, st.fault, tag), 'request %d (%s, stream %s) outstanding at the fault was never completed' % (r.idx, r.kind, r.stream))
                 elif n == 1:
@@ -436,14 +470,24 @@ PROGRAMS_Q = [
     {'program': ('plain', 'wait'), 'depth': 24},
     {'program': ('plain', 'plain', 'plain', 'hb'), 'threshold': 2, 'depth': 24},
     {'program': ('cp', 'plain', 'plain', 'plain'), 'threshold': 2, 'depth': 24},
+    # handlers that raise while being failed: three and four outstanding, the raising one first / in the middle / last
+    {'program': ('plainx', 'plain', 'plain'), 'depth': 24},
+    {'program': ('plain', 'plainx', 'plainx'), 'depth': 24},
+    {'program': ('plain', 'plainx', 'plain', 'hb'), 'threshold': 2, 'depth': 24},
+    {'program': ('plainx', 'cp', 'plain', 'plain'), 'threshold': 2, 'depth': 24},
 ]
 def _programs_thorough():
-    """every program of 4 requests over {plain, cp, hb} with at most one cp and one hb, inline and with the
-    callback thread (threshold 2), plus the blocking waiter after every 2-request prefix"""
+    """every program of 4 requests over {plain, plainx, cp, hb} with at most one cp, one hb and one plainx, inline and with the
+    callback thread (threshold 2), every program of 3 plain requests with any subset of raising handlers, plus the blocking
+    waiter after every 2-request prefix"""
     import itertools
     out = []
-    for t in itertools.product(('plain', 'cp', 'hb'), repeat=4):
-        if t.count('cp') <= 1 and t.count('hb') <= 1:
+    for t in itertools.product(('plain', 'plainx', 'cp', 'hb'), repeat=4):
+        if t.count('cp') <= 1 and t.count('hb') <= 1 and t.count('plainx') <= 1:
+            out.append({'program': t, 'depth': 40})
+            out.append({'program': t, 'threshold': 2, 'depth': 40})
+    for t in itertools.product(('plain', 'plainx'), repeat=3):
+        if t.count('plainx') >= 2:
             out.append({'program': t, 'depth': 40})
             out.append({'program': t, 'threshold': 2, 'depth': 40})
     for t in itertools.product(('plain', 'cp', 'hb'), repeat=2):
@@ -463,18 +507,52 @@ def run(ctx):
         params = {k: v for k, v in p.items() if k != 'depth'}
         label = 'c10/%s%s' % ('-'.join(p['program']), '/t%d' % p['threshold'] if p.get('threshold') else '')
         explore.bfs(ctx, H, params, max_depth=p['depth'], label=label)
-    ctx.count('transitions', ctx.counters.get('executions', 0))
+    run_sched(ctx)
+    ctx.count('transitions', ctx.counters.get('executions', 0) + ctx.counters.get('sched_steps', 0))
+    ctx.count('evaluations', ctx.counters.get('executions', 0) + ctx.counters.get('sched_executions', 0))
     ctx.cov['rule'] = ('programs %r explored breadth-first until no new state appears (the depth bounds are never reached: complete_to_depth / frontier_left=0 per harness) with every enabled event at every state (fault at every '
                        'event point; after the fault every continuation order); states deduplicated on (connection flags, per-request '
-                       'handler log / server state, registered streams, pending callback thread)' % (progs,))
-    ctx.cov['distinct_nontrivial'] = ctx.counters.get('states', 0)
+                       'handler log / server state, registered streams, pending callback thread); schedule layer: every execution with '
+                       '<= bound preemptions of each configuration in vt.c10sched.configs (harnesses.c10-sched), non-trivial = executions '
+                       'that deviate from the default schedule' % (progs,))
+    ctx.cov['distinct_nontrivial'] = ctx.counters.get('states', 0) + len(ctx.nontrivial)
     ctx.assume('handlers are registered exactly as the pools / HeartbeatFuture / ResponseFuture do (send_msg with a callback; session on first page)')
+    ctx.assume('an undecodable frame on the stream of a handler that raises is not generated: process_msg hands the decode error to the '
+               'handler before it calls defunct(), the handler\'s exception leaves process_msg and what the reactor does with it is '
+               'reactor-specific (the connection may not become defunct at all, which the statement does not cover)')
+    ctx.assume('schedule layer: one reactor thread; preemption only at the scheduling points named in META; a racing send counts as '
+               '"started after the failure" when is_defunct / is_closed was set immediately before the call')
     ctx.assume('a late frame is delivered by writing to _iobuf and calling process_io_buffer(), i.e. the reactor had read the bytes before the '
                'connection went down; VConnection.feed() itself drops data once the connection is closed, as reactors stop reading')
 
 
+def run_sched(ctx):
+    from vt import c10sched
+    jobs = list(ctx.rotate(c10sched.configs(ctx.thorough)))
+    roots = ctx.pmap(c10sched.root, jobs)
+    sub = []
+    maxpts = 0
+    for (params, bound), (part, kids, npts) in zip(jobs, roots):
+        ctx.merge(part)
+        maxpts = max(maxpts, npts)
+        k = max(1, min(len(kids), 8 if bound <= 1 else 32))
+        sub += [(params, bound, kids[i::k]) for i in range(k) if kids[i::k]]
+    for part in ctx.pmap(c10sched.sub, sub):
+        ctx.merge(part)
+    ctx.cov.setdefault('harnesses', {})['c10-sched'] = {
+        'configs': [{'params': p, 'preemption_bound': b} for p, b in jobs], 'executions': ctx.counters.get('sched_executions', 0),
+        'max_choice_points': maxpts, 'complete': True}
+
+
 def replay(ctx, data):
     connlib.quiet_driver_logs()
+    if data.get('layer') == 'sched':
+        from vt import c10sched
+        part = Part()
+        c10sched.harness(data['params'], data['prefix'], part)
+        for fp, what, _ in part.violations:
+            print(fp, '::', what[:500])
+        return bool(part.violations)
     params = dict(data['params'])
     params['program'] = tuple(params['program'])
     hist = [tuple(e) for e in data['history']]
